@@ -365,6 +365,10 @@ func genReconn(r *Rng, prop string) *Scenario {
 		if r.chance(0.5) {
 			sc.Ops = append(sc.Ops, Op{AtUs: 0, Actor: 2, Kind: "handle", Handler: 9})
 		}
+		if r.chance(0.2) {
+			// a handler that replaces itself (by handler 6) from inside the callback
+			sc.Ops = append(sc.Ops, Op{AtUs: r.between(0, span), Actor: 2, Kind: "handle", Handler: 5})
+		}
 	}
 	lastOp := t
 	if connectAt > lastOp {
